@@ -723,6 +723,11 @@ func (run *FuncRun) execInstr(st *State, instr ssa.Instruction) bool {
 		run.set(st, in, run.term(st, in.X))
 	case *ssa.ChangeType:
 		x := run.val(st, in.X)
+		if isIface(in.Type()) && !isIface(in.X.Type()) {
+			// conversion of a type-parameter value to an interface: boxing
+			run.set(st, in, reg.Box(in.X.Type(), run.valToTerm(st, x)))
+			return true
+		}
 		if t, ok := x.(Term); ok {
 			so := reg.SortOf(in.Type())
 			if t.Sort != so {
@@ -1129,7 +1134,7 @@ func (run *FuncRun) execTypeAssert(st *State, in *ssa.TypeAssert) {
 	if hasTypeParam(at) {
 		fail("%s: type assertion to %s depends on a type parameter; verify the instantiations instead of the generic body", run.key, at)
 	}
-	if types.IsInterface(at) {
+	if isIface(at) {
 		ok = run.eng.implementsTerm(run, x, at)
 		val = x
 	} else {
@@ -1175,4 +1180,12 @@ func hasTypeParam(t types.Type) bool {
 	}
 	visit(t, 0)
 	return found
+}
+
+// isIface: a genuine interface type (type parameters are not).
+func isIface(t types.Type) bool {
+	if _, ok := types.Unalias(t).(*types.TypeParam); ok {
+		return false
+	}
+	return types.IsInterface(t)
 }
